@@ -6,7 +6,6 @@ package main
 import (
 	"fmt"
 	"go/ast"
-	"go/token"
 	"go/types"
 	"strings"
 
@@ -16,6 +15,7 @@ import (
 func init() { register("C08", false, runC08) }
 
 func runC08(c *Ctx) {
+	dropOrphanHelpers(c)
 	c.Clauses = []string{
 		"C08.a end-of-input marker emitted exactly once, after the loop on every exit, followed by the only close of the channel and the closed signal; the close request is polled at the loop head before each read; Close only signals and cannot block",
 		"C08.b ownership transfer: a parser-owned slice stored into a delivered sequence is replaced by fresh storage before the dispatch function returns (never re-sliced and reused)",
@@ -130,8 +130,11 @@ func c08RunLoop(c *Ctx) {
 		if fn == nil || fn.Name() != "emit" {
 			return false
 		}
-		cl, ok := call.Args[0].(*ast.CompositeLit)
-		return ok && types.ExprString(cl.Type) == "EOF"
+		// the argument is a value of the package's EOF type, however it is spelled (EOF{}, a variable, a constant)
+		if nt, ok := info.TypeOf(call.Args[0]).(*types.Named); ok {
+			return nt.Obj().Name() == "EOF" && nt.Obj().Pkg() == pk.Types
+		}
+		return false
 	}
 	isCloseSeq := func(n ast.Node) bool {
 		call, ok := n.(*ast.CallExpr)
@@ -205,104 +208,16 @@ func c08RunLoop(c *Ctx) {
 	} else {
 		c.bad("C08.a", run.Name+"/closed signalled", run.Decl.Pos(), "run does not send on p.closed")
 	}
-	// loop head polls the close request before reading
-	okPoll := false
-	ast.Inspect(run.Decl.Body, func(n ast.Node) bool {
-		fs, ok := n.(*ast.ForStmt)
-		if !ok {
-			return true
-		}
-		for _, s := range fs.Body.List {
-			sel, ok := s.(*ast.SelectStmt)
-			if !ok {
-				// a read before the poll
-				if containsNode(s, func(m ast.Node) bool {
-					call, ok := m.(*ast.CallExpr)
-					if !ok {
-						return false
-					}
-					fn := calleeOf(info, call)
-					return fn != nil && fn.Name() == "readRune"
-				}) {
-					return false
-				}
-				continue
-			}
-			hasClose, hasDefaultRead := false, false
-			for _, cl := range sel.Body.List {
-				cc := cl.(*ast.CommClause)
-				if cc.Comm == nil {
-					for _, bs := range cc.Body {
-						if containsNode(bs, func(m ast.Node) bool {
-							call, ok := m.(*ast.CallExpr)
-							if !ok {
-								return false
-							}
-							fn := calleeOf(info, call)
-							return fn != nil && fn.Name() == "readRune"
-						}) {
-							hasDefaultRead = true
-						}
-					}
-					continue
-				}
-				recv := ""
-				ast.Inspect(cc.Comm, func(m ast.Node) bool {
-					if u, ok := m.(*ast.UnaryExpr); ok && u.Op == token.ARROW {
-						recv = ansiFieldPath(info, u.X)
-					}
-					return true
-				})
-				if recv == "Parser.close" {
-					for _, bs := range cc.Body {
-						if br, ok := bs.(*ast.BranchStmt); ok && br.Tok == token.BREAK && br.Label != nil {
-							hasClose = true
-						}
-						if _, ok := bs.(*ast.ReturnStmt); ok {
-							hasClose = false // a return here would bypass EOF; handled above
-						}
-					}
-				}
-			}
-			if hasClose && hasDefaultRead {
-				okPoll = true
-			}
-			break
-		}
-		return false
-	})
-	c.check(okPoll, "C08.a", run.Name+"/close request polled at the loop head before each read", run.Decl.Pos(), "select{case <-close: break loop; default: read}", "the loop does not test the close request before every read: Close followed by the reader returning does not stop the parser")
+	// the close request is tested before every read, and nothing is read once it was received (path property,
+	// c08y.go: independent of labelled breaks / flags / helpers)
+	c08PollBeforeRead(c, run)
 	// Close only signals; the signal channels are buffered so that Close cannot block
 	if cl := c.P.Func("ansi.(*Parser).Close"); cl != nil {
-		onlySend := len(cl.Decl.Body.List) == 1
-		if onlySend {
-			s, ok := cl.Decl.Body.List[0].(*ast.SendStmt)
-			onlySend = ok && ansiFieldPath(info, s.Chan) == "Parser.close"
-		}
+		onlySend, _ := c08IsPlainSend(c, cl, "Parser.close", false)
 		c.check(onlySend, "C08.a", "ansi.(*Parser).Close/only signals", cl.Decl.Pos(), "Close is a single send on the close channel", "Close does more than signal the run loop")
 	}
 	if np := c.P.Func("ansi.NewParser"); np != nil {
-		caps := map[string]int64{}
-		ast.Inspect(np.Decl.Body, func(n ast.Node) bool {
-			kv, ok := n.(*ast.KeyValueExpr)
-			if !ok {
-				return true
-			}
-			call, ok := kv.Value.(*ast.CallExpr)
-			if !ok {
-				return true
-			}
-			if id, ok := call.Fun.(*ast.Ident); ok && id.Name == "make" {
-				if _, isChan := info.TypeOf(call.Args[0]).Underlying().(*types.Chan); isChan {
-					var capv int64
-					if len(call.Args) >= 2 {
-						capv, _ = constInt(info, call.Args[1])
-					}
-					caps[types.ExprString(kv.Key)] = capv
-				}
-			}
-			return true
-		})
+		caps := c08ParserChanCaps(c)
 		c.check(caps["close"] >= 1, "C08.a", "ansi.NewParser/close channel buffered", np.Decl.Pos(), "Close never blocks while the reader is blocked", "the close channel is unbuffered: Close blocks until the loop polls it, i.e. forever while the reader is blocked (Suspend deadlocks)")
 		c.check(caps["closed"] >= 1, "C08.a", "ansi.NewParser/closed channel buffered", np.Decl.Pos(), "run can finish without a waiter", "the closed channel is unbuffered: run (and the parser goroutine) never finishes unless someone calls WaitClose")
 	}
@@ -346,7 +261,9 @@ func parserOwnership(c *Ctx, rule string) {
 		}
 		return sel.Sel.Name
 	}
-	isFresh := func(e ast.Expr, field string) (bool, string) {
+	freshDepth := 0
+	var isFresh func(e ast.Expr, field string) (bool, string)
+	isFresh = func(e ast.Expr, field string) (bool, string) {
 		e = unparen(e)
 		switch t := e.(type) {
 		case *ast.CompositeLit:
@@ -354,6 +271,13 @@ func parserOwnership(c *Ctx, rule string) {
 		case *ast.Ident:
 			if t.Name == "nil" {
 				return true, "nil"
+			}
+			// a local defined exactly once stands for its definition (fresh := pool.Get(); p.f = fresh)
+			if src := singleDefOf(info, info.ObjectOf(t)); src != nil && freshDepth < 3 {
+				freshDepth++
+				ok, why := isFresh(src, field)
+				freshDepth--
+				return ok, why
 			}
 		case *ast.CallExpr:
 			if id, ok := t.Fun.(*ast.Ident); ok && id.Name == "make" {
@@ -590,7 +514,7 @@ func c08TimerHazard(c *Ctx) {
 					continue
 				}
 				rg := c.P.Graph(run)
-				isSet := func(m ast.Node) bool {
+				isSetStmt := func(m ast.Node) bool {
 					as, ok := m.(*ast.AssignStmt)
 					if !ok || len(as.Lhs) != 1 || len(as.Rhs) != 1 {
 						return false
@@ -598,6 +522,39 @@ func c08TimerHazard(c *Ctx) {
 					tv := info.Types[as.Rhs[0]]
 					return lhsPath(info, as.Lhs[0]) == flag && tv.Value != nil && tv.Value.String() == "true"
 				}
+				// a helper of the package that, on every path, sets the flag while holding p.mu (Lock before the
+				// store, no non-deferred Unlock in between) counts as a locked store at its call site
+				isSetHelper := func(m ast.Node) bool {
+					c2, ok := m.(*ast.CallExpr)
+					if !ok {
+						return false
+					}
+					hf := c.P.FuncOfObj(calleeOf(info, c2))
+					if hf == nil || hf.Pkg != fi.Pkg || hf.Decl.Body == nil || hf == run {
+						return false
+					}
+					hg := c.P.Graph(hf)
+					hsets := hg.Find(isSetStmt)
+					if len(hsets) == 0 {
+						return false
+					}
+					if every, _ := hg.MustFollow(Loc{hg.Blocks[0], -1}, isSetStmt); !every {
+						return false
+					}
+					for _, st := range hsets {
+						locked := false
+						for _, lk := range hg.Find(isLock) {
+							if hg.ReachesAvoiding(lk.Loc, st.Loc, nil) && !reachesThrough(hg, lk.Loc, st.Loc, isUnlock) {
+								locked = true
+							}
+						}
+						if !locked {
+							return false
+						}
+					}
+					return true
+				}
+				isSet := func(m ast.Node) bool { return isSetStmt(m) || isSetHelper(m) }
 				closes := rg.Find(func(m ast.Node) bool {
 					c2, ok := m.(*ast.CallExpr)
 					if !ok || len(c2.Args) != 1 {
@@ -617,7 +574,7 @@ func c08TimerHazard(c *Ctx) {
 					}
 				}
 				for _, st := range sets {
-					lockedSet := false
+					lockedSet := isSetHelper(st.Node)
 					for _, lk := range rg.Find(isLock) {
 						if rg.ReachesAvoiding(lk.Loc, st.Loc, nil) && !reachesThrough(rg, lk.Loc, st.Loc, isUnlock) {
 							lockedSet = true
